@@ -543,3 +543,22 @@ def a2_borrowed_fields(ctx, ma):
                 else:
                     ctx.ok("C12-A2", ctx.site(mod.name, init), f"{cq}.{f} borrows a constructor argument and is never mutated in place")
     ctx.ok("C12-A2", ctx.site(AABB, repo.func(AABB, "AABB.__init__")), f"{n_cls} constructors examined")
+
+
+
+# ----------------------------------------------------------------------- generic families (msa/rules/generic.py)
+_run_specific = run
+
+
+def run(ctx):
+    _run_specific(ctx)
+    from ..rules import generic
+    generic.apply(ctx, "C12", stale_modules=())
+
+
+def _generic_rule_texts():
+    from ..rules import generic
+    return generic.rule_texts("C12", stale=False)
+
+
+RULES.update(_generic_rule_texts())
